@@ -4,20 +4,20 @@ CONSTANTS
   Servers = {"a", "b"}
   Members = {"m1", "m2", "m3"}
   Dense = TRUE
-  RecheckAtApply = FALSE
+  RecheckAtApply = TRUE
   KeepTimers = FALSE
   CountAllWit = FALSE
   RetryBlind = FALSE
   MaxOps = 6
-  MaxPend = 1
+  MaxPend = 0
   MaxWaits = 2
-  MaxParks = 0
+  MaxParks = 1
   EpochSels = {"cur"}
-  PairSels = {"cur"}
+  PairSels = {"cur", "old"}
   WaitModes = {"none", "good"}
   ReqServers = {"a"}
   EffectiveOnly = FALSE
-INVARIANTS TypeOK X01_TimersOnlyAtCoordinator X01_NoCrash TimersComplete StatusLive WitnessesAreGood
+INVARIANTS NoTaint
 PROPERTIES StepsOK
 VIEW MCView
 CHECK_DEADLOCK FALSE
